@@ -369,13 +369,14 @@ void h_idx(void) {
 #else
   unsigned ki = nondet_uint(), kj = nondet_uint();
   XV_ASSUME(ki < XV_E && kj < XV_E);
-  unsigned idx, a_push, b_push, a_pop, b_pop, a_dt, b_dt, i;
-  idx = ki * step_size; XV_PUSH_SLOT_STMT; a_push = idx;
-  idx = kj * step_size; XV_PUSH_SLOT_STMT; b_push = idx;
-  idx = ki * step_size; XV_POP_SLOT_STMT; a_pop = idx;
-  idx = kj * step_size; XV_POP_SLOT_STMT; b_pop = idx;
-  i = ki * step_size; a_dt = XV_DTOR_SLOT_EXPR;
-  i = kj * step_size; b_dt = XV_DTOR_SLOT_EXPR;
+  unsigned a_push, b_push, a_pop, b_pop, a_dt, b_dt;
+  /* the statements / expression of the header, applied to the counter values of the two tickets (variables named as in the header) */
+  { unsigned XV_PUSH_SLOT_VAR = ki * step_size; XV_PUSH_SLOT_STMT; a_push = XV_PUSH_SLOT_VAR; }
+  { unsigned XV_PUSH_SLOT_VAR = kj * step_size; XV_PUSH_SLOT_STMT; b_push = XV_PUSH_SLOT_VAR; }
+  { unsigned XV_POP_SLOT_VAR = ki * step_size; XV_POP_SLOT_STMT; a_pop = XV_POP_SLOT_VAR; }
+  { unsigned XV_POP_SLOT_VAR = kj * step_size; XV_POP_SLOT_STMT; b_pop = XV_POP_SLOT_VAR; }
+  { unsigned XV_DTOR_SLOT_VAR = ki * step_size; a_dt = XV_DTOR_SLOT_EXPR; }
+  { unsigned XV_DTOR_SLOT_VAR = kj * step_size; b_dt = XV_DTOR_SLOT_EXPR; }
   XV_OBL("ram.idx.injective", a_push < XV_E && a_pop < XV_E && a_dt < XV_E);
   XV_OBL("ram.idx.injective", a_push == a_pop && a_push == a_dt);            /* producer, consumer and destructor agree on the entry of a ticket */
   XV_OBL("ram.idx.injective", a_push == (ki * XV_STEP) % XV_E);               /* and it is the map the other harnesses use as specification */
